@@ -33,18 +33,25 @@ theorem finder_sound (chunks : List Bytes) (hne : ∀ c ∈ chunks, c ≠ []) :
 /-- non-vacuity: `__TIME__` split 3|2|3 across three short reads after a full chunk is found -/
 example : (Finder.run [List.replicate 20 120, [95, 95, 84], [73, 77], [69, 95, 95]]).foundTime = true := by decide
 
-/-- `manifest_hit_sound_partial`: for every option combination (stat matching, ctime use, ignoring time macros),
+/-- `manifest_hit_sound`: for every option combination (stat matching, ctime use, ignoring time macros),
     every recorded include list (recorded at compile start `t0` from file system `fs0`) and every later file system
     in which each changed file carries a ctime ≥ `t0` (any history of writes, touches, deletions, re-creations under
-    a monotone clock), a manifest hit implies that **every** recorded header still has its recorded contents.
-    Partial: excludes headers holding time-macro text under the default handling (finding F-C04-b below). -/
-theorem manifest_hit_sound_partial (cfg : Cfg) (t0 : Nat) (fs0 fs1 : FS)
+    a monotone clock), a manifest hit implies that **every** recorded header still has its recorded contents —
+    at full strength since the fix of F-C04-b (headers holding time-macro text are content-compared too). -/
+theorem manifest_hit_sound (cfg : Cfg) (t0 : Nat) (fs0 fs1 : FS)
     (hev : EvolvedSince t0 fs0 fs1)
     (incs : List Inc) (hrec : ∀ inc ∈ incs, ∃ f0, fs0 inc.path = some f0 ∧ inc = record t0 inc.path f0)
-    (hntm : TimeMacroFree cfg fs1 incs)
     (hm : resultMatches cfg fs1 incs = true) :
     ∀ inc ∈ incs, ∃ f1, fs1 inc.path = some f1 ∧ f1.content = inc.digest :=
-  ManifestM.manifest_hit_sound_partial cfg t0 fs0 fs1 hev incs hrec hntm hm
+  ManifestM.manifest_hit_sound cfg t0 fs0 fs1 hev incs hrec hm
+
+/-- the expansions of the time macros: under the default handling a header that mentions `__TIME__` or `__DATE__` never hits, and one that
+    mentions `__TIMESTAMP__` hits only with the modification time it was recorded with (no stat hit involved) -/
+theorem time_macro_header_hit (cfg : Cfg) (fs : FS) (inc : Inc) (rest : List Inc) (f : FileSt)
+    (hf : fs inc.path = some f) (hcfg : cfg.ignoreTimeMacros = false) (hst : statHit cfg f inc = false)
+    (hm : resultMatches cfg fs (inc :: rest) = true) :
+    f.hasTime = false ∧ f.hasDate = false ∧ (f.hasTimestamp = true → inc.mtime = some f.mtime) :=
+  ManifestM.time_macro_header_hit cfg fs inc rest f hf hcfg hst hm
 
 /-- a deleted header never yields a hit -/
 theorem deleted_header_misses (cfg : Cfg) (fs : FS) (inc : Inc) (rest : List Inc) (h : fs inc.path = none) :
@@ -59,19 +66,8 @@ theorem size_change_misses (cfg : Cfg) (fs : FS) (pre : List Inc) (inc : Inc) (p
     simp [resultMatches, hf, this]
   | cons p ps ih =>
     simp only [List.cons_append, resultMatches]
-    split
-    · rfl
-    · split
-      · rfl
-      · split
-        · exact ih
-        · split
-          · simp [ih]
-          · split
-            · rfl
-            · split
-              · rfl
-              · exact ih
+    repeat' (first | rfl | exact ih | split)
+    all_goals simp [ih]
 
 /-- F-C04-a, now repaired in /repo (`fix:` commit): with `ignore_time_macros` an edit of the *second* header is detected -/
 theorem ignore_time_macros_second_header_detected :
@@ -80,12 +76,19 @@ theorem ignore_time_macros_second_header_detected :
     resultMatches cfg fs1 [⟨0, 10, 5, none, none⟩, ⟨1, 20, 5, none, none⟩] = false :=
   ManifestM.ignore_time_macros_second_header_detected
 
-/-- F-C04-b (negative, kernel-checked): under the default handling a header containing `__DATE__` is never
-    content-compared — a same-size edit still hits. This is the region `TimeMacroFree` excludes. -/
+/-- F-C04-b (fixed; kernel-checked): before the fix a header containing `__DATE__` was never content-compared — a same-size edit still
+    hit — and a touched `__TIMESTAMP__` header kept hitting with its old expansion; both states miss now -/
 theorem date_header_witness :
     let cfg : Cfg := ⟨false, true, false⟩
     let fs1 : FS := fun p => if p = 0 then some ⟨77, 5, 1, 1, true, false, false⟩ else none
-    resultMatches cfg fs1 [⟨0, 10, 5, none, none⟩] = true := ManifestM.date_header_witness
+    resultMatchesBefore cfg fs1 [⟨0, 10, 5, none, none⟩] = true ∧ resultMatches cfg fs1 [⟨0, 10, 5, none, none⟩] = false :=
+  ManifestM.date_header_witness
+
+theorem timestamp_header_witness :
+    let cfg : Cfg := ⟨false, true, false⟩
+    let fs1 : FS := fun p => if p = 0 then some ⟨10, 5, 9, 9, false, false, true⟩ else none
+    resultMatchesBefore cfg fs1 [⟨0, 10, 5, some 1, some 1⟩] = true ∧ resultMatches cfg fs1 [⟨0, 10, 5, some 1, some 1⟩] = false :=
+  ManifestM.timestamp_header_witness
 
 
 end C04
